@@ -269,7 +269,8 @@ def gen_program(rng, cfg, n_stmts=None, weights=None, allow_bad=0.1, gprefix='gl
             tr.advance(wd * cnt)
         elif k == 'fill':
             room = z[1] + 1 - tr.cur
-            c = rng.choice([0, 1, 2, 3, rng.randint(0, 12)] + ([room, room + 1] if 0 <= room < 40 else []))
+            c = rng.choice([0, 1, 2, 3, rng.randint(0, 12)] + ([room, room + 1] if 0 <= room < 40 else []) +
+                           ([-1, -2] if rng.random() < 0.15 else []))      # a negative count moves the cursor backwards
             v = rng.choice([0, 0xFF, rng.randint(0, 255), rng.randint(256, 1000), -1])
             cn = [x for x in names]
             st = {'k': 'fill', 'cnt': simple_expr(rng, c, cn, tr.env), 'val': simple_expr(rng, v, names, tr.env)}
